@@ -76,6 +76,7 @@ def run(tier, replay=None):
         streams = [
             ("graph", "cases_graph.txt", "gcase", "graph_mismatches"),
             ("equal", "cases_equal.txt", "pcase", "equal_mismatches"),
+            ("required", "cases_required.txt", "rcase", "required_mismatches"),
         ]
         for name, fn, typ, fun in streams:
             lines = _lines(ck, fn)
@@ -101,13 +102,13 @@ def run(tier, replay=None):
         total = sum(len(v) for v in mism.values())
         if total and not ck.violations:
             first = None
-            for name in ("graph", "equal"):
+            for name in ("graph", "equal", "required"):
                 if mism.get(name):
                     first = {"stream": name, "case": mism[name][0], "input": _input_of(ck, name, mism[name][0])}
                     break
             ck.unproved(
-                "correspondence TypeGraph model vs expr/hasher.go, expr/types.go Equal, expr/dup.go broke on %d graph case(s) (hash strings, shape of the copy) and %d Equal case(s); "
-                "the property's own laws held on every case explored" % (len(mism.get("graph", [])), len(mism.get("equal", []))),
+                "correspondence TypeGraph model vs expr/hasher.go, expr/types.go Equal, expr/dup.go broke on %d graph case(s) (hash strings, shape of the copy), %d Equal case(s) and %d Required-slice case(s); "
+                "the property's own laws held on every case explored" % (len(mism.get("graph", [])), len(mism.get("equal", [])), len(mism.get("required", []))),
                 {"broken": "model output = observed (byte-exact hash strings under 8 flag vectors + Hash method; Equal; shape of Dup's result)",
                  "first_disagreeing_case": first,
                  "mismatching_case_indexes": {k: v[:50] for k, v in mism.items()}})
